@@ -232,9 +232,15 @@ def explore_history(st, w, first_image):
             fresh = {}
             for B in images:
                 dB = std_encode(B, w, bytealign)
-                d = CCITTFaxDecoder(w, bytealign=bytealign, reversed=blackis1)
-                d.feedbytes(dB)
-                fresh[tuple(B)] = (dB, d.close())
+                try:
+                    d = CCITTFaxDecoder(w, bytealign=bytealign, reversed=blackis1)
+                    d.feedbytes(dB)
+                    out = d.close()
+                except Exception as e:  # noqa - a decoder that raises on a conforming encoding is the other families' finding; here it is only the reference
+                    out = f"{type(e).__name__}: {e}"
+                    st.violation("C19/exception:" + type(e).__name__, {"history": "fresh", "w": w, "rows": [list(r) for r in B], "bytealign": bytealign, "blackis1": blackis1, "k": 0},
+                                 t6.packed_rows(B, blackis1), out, "fresh decoder raises on a conforming encoding")
+                fresh[tuple(B)] = (dB, out)
             # (1) split feeding of A
             whole = fresh[tuple(A)][1] if tuple(A) in fresh else None
             for k in range(0, len(dataA) + 1):
